@@ -2,6 +2,7 @@ package props
 
 import (
 	"fmt"
+	"os"
 	"strings"
 
 	"golang.org/x/tools/go/ssa"
@@ -66,7 +67,7 @@ func runC04(c *Ctx) {
 	}
 	// decode helper: sentinel rejection, value handed on
 	var decodeFn *ssa.Function
-	for _, ce := range b.CondEdges() {
+	for _, ce := range deepEdges(c, b) {
 		if _, ok := ana.Match("bin<==>(ext#1(call<*>(load(global<repo/pkg/bech32.charset>), _)), nil)", ce.Lit); ok {
 			decodeFn = calleeOf(ce.Lit.Arg(0))
 		}
@@ -153,7 +154,11 @@ func runC04(c *Ctx) {
 	loops := rangeLoopsAll(b)
 	for i := range loops {
 		l := &loops[i]
-		switch l.Coll.String() {
+		coll := l.Coll
+		if x, ch := ana.ExpandCalls(c.P, coll); ch {
+			coll = x // a separator position reported by a helper
+		}
+		switch coll.String() {
 		case "p0":
 			if forAll(b, *l, "bin<<>(index(p0, ind<+1>(0)), 128)", "bin<<=>(index(p0, ind<+1>(0)), 127)", "bin<<>(ext#2(next(range(p0))), 128)") {
 				asciiLoop = l
@@ -478,10 +483,20 @@ func nilnessOf(v bitdom.Val) (isNil, known bool) {
 }
 
 func c04Bounds(c *Ctx, fn *ssa.Function, b *ana.Builder) {
+	nSites, nOff := c04BoundsIn(c, fn, b, nil, 0)
+	c.R.Floor("C04.floor.slice-sites", nSites, 1, "slice expressions in Decode")
+	c.R.Floor("C04.floor.offset-sites", nOff, 1, "SyntaxError.Offset stores in Decode")
+}
+
+// c04BoundsIn checks the slice expressions and Offset stores of fn (Decode, or a
+// helper Decode calls, with its parameters bound to the arguments and entered
+// only with the (len, separator) pairs that reach the call). In a helper only
+// the sites whose bounds are functions of (len, separator) are decided.
+func c04BoundsIn(c *Ctx, fn *ssa.Function, b *ana.Builder, entry map[int]bool, depth int) (int, int) {
 	r := c.R
 	hl := `call<strings.LastIndex>(p0, "1")`
 	// tracked: len(s) in 0..95, separator position in -1..94; LastIndex < len is the library contract
-	vs := &ana.VSA{B: b, Tracked: []string{"len(p0)", hl}, Ranges: [][2]int64{{0, 95}, {-1, 94}}}
+	vs := &ana.VSA{B: b, Tracked: []string{"len(p0)", hl}, Ranges: [][2]int64{{0, 95}, {-1, 94}}, Entry: entry}
 	vs.Derived = func(t *ana.Term, tu []int64) (int64, bool) {
 		if t.Is("len") {
 			return c04Len(t.Arg(0), tu)
@@ -498,6 +513,23 @@ func c04Bounds(c *Ctx, fn *ssa.Function, b *ana.Builder) {
 	for _, blk := range fn.Blocks {
 		for _, ins := range blk.Instrs {
 			switch x := ins.(type) {
+			case ssa.CallInstruction:
+				// helpers that received part of Decode's body: same checks, entered with the pairs reaching the call
+				h := ana.StaticRepoCallee(x.Common())
+				if h == nil || h.Blocks == nil || depth >= 2 || h == fn || h.Pkg != fn.Pkg || h.Signature.Recv() != nil {
+					continue
+				}
+				call := stripObj(b.CallTermAt(x))
+				if call.Op != "call" || len(call.Args) != len(h.Params) {
+					continue
+				}
+				in := map[int]bool{}
+				for idx := range sets[blk] {
+					in[idx] = true
+				}
+				s2, o2 := c04BoundsIn(c, h, boundBuilderP(c.P, call), in, depth+1)
+				nSites += s2
+				nOff += o2
 			case *ssa.Slice:
 				base := b.Of(x.X, x)
 				var lo, hi *ana.Term
@@ -544,8 +576,13 @@ func c04Bounds(c *Ctx, fn *ssa.Function, b *ana.Builder) {
 				}
 				if good {
 					r.OK("C04.no-panic.slice-bounds", c.ipos(x), "slice bounds hold for all %d (len, separator) pairs reaching it: %s", checked, short(b.Of(x, x).String(), 90))
-				} else if checked == 0 {
+				} else if checked == 0 && depth == 0 {
 					r.Undec("C04.no-panic.slice-bounds", c.ipos(x), "bounds of %s not expressible over (len, separator)", short(b.Of(x, x).String(), 120))
+				} else if checked == 0 {
+					nSites--
+					if os.Getenv("VDEBUG") != "" {
+						fmt.Fprintf(os.Stderr, "skip slice %s %s\n", c.ipos(x), b.Of(x, x))
+					}
 				}
 			case *ssa.Store:
 				at := b.Of(x.Addr, x)
@@ -580,16 +617,18 @@ func c04Bounds(c *Ctx, fn *ssa.Function, b *ana.Builder) {
 				}
 				if good && checked > 0 {
 					r.OK("C04.offset-range.value", c.ipos(x), "offset within [0, len(s)] for all %d (len, separator) pairs reaching it: %s", checked, short(vt.String(), 100))
-				} else if good {
+				} else if (good || checked == 0) && depth == 0 {
 					r.Undec("C04.offset-range.value", c.ipos(x), "offset term not expressible: %s", short(vt.String(), 160))
-				} else if checked == 0 {
-					r.Undec("C04.offset-range.value", c.ipos(x), "offset term not expressible: %s", short(vt.String(), 160))
+				} else if good || checked == 0 {
+					nOff--
+					if os.Getenv("VDEBUG") != "" {
+						fmt.Fprintf(os.Stderr, "skip offset %s %s\n", c.ipos(x), vt)
+					}
 				}
 			}
 		}
 	}
-	r.Floor("C04.floor.slice-sites", nSites, 1, "slice expressions in Decode")
-	r.Floor("C04.floor.offset-sites", nOff, 1, "SyntaxError.Offset stores in Decode")
+	return nSites, nOff
 }
 
 // c04Int evaluates an integer term over (len(s), hrpLen).
@@ -610,6 +649,11 @@ func c04Int(t *ana.Term, tu []int64) (int64, bool) {
 		a, ok1 := c04Int(t.Arg(0), tu)
 		bb, ok2 := c04Int(t.Arg(1), tu)
 		return a - bb, ok1 && ok2
+	case t.Is("ext") || t.Is("call"):
+		// a position reported by a repository helper: the value of its successful exit
+		if x, ch := ana.ExpandCalls(ana.DefaultProg, t); ch && x.String() != t.String() {
+			return c04Int(x, tu)
+		}
 	}
 	return 0, false
 }
